@@ -541,9 +541,9 @@ theorem runStates_safe (hs : Spec prog inp A V) (hw : wfProg prog = true)
         | err e => rw [hr] at hsm; exact hsm.elim
         | outOfFuel => trivial
         | fail s' st pk => exact ih _ _ _ _ _ hall.pop
-        | cont s' st pk => rw [hr] at hsm; exact ih _ _ _ _ _ (hall.setTop hsm)
+        | cont s' st pk => rw [hr] at hsm; exact ih _ _ _ _ _ (hall.pop.push hsm)
         | complete s' st pk => rw [hr] at hsm; exact ⟨rfl, hsm.2, hsm.1.2.1, hsm.1.2.2⟩
-        | split s' n st pk => rw [hr] at hsm; exact ih _ _ _ _ _ ((hall.setTop hsm.1).push hsm.2)
+        | split s' n st pk => rw [hr] at hsm; exact ih _ _ _ _ _ ((hall.pop.push hsm.1).push hsm.2)
 
 end Inv
 
